@@ -511,6 +511,10 @@ def run(ctx):
     ctx.attempt(r58, ctx)
     ctx.rule("R-5.10", "the acquire primitive does not evaluate the P matrix (the idle block may be empty right after the last acquire)", floor=1)
     ctx.attempt(r510, ctx)
+    ctx.rule("R-5.15", "a job is only drawn for an ensemble in which its path has weight: the rows of the P matrix are put back at the positions of their paths (scatter through the index array that sorted, shared with C02 R-2.4 / R-2.5)", floor=5)
+    from . import c02 as _c02e
+    from .shared import RuleProxy as _RP5d
+    ctx.attempt(_c02e.r24_25, _RP5d(ctx, "R-5.15", " (a path is picked for an ensemble where its weight is zero: when that job is rejected add_traj hits `assert valid[ens] != 0`, the step cannot complete and the worker never gets another job)"))
     ctx.rule("R-5.14", "a picked job can always be given its engines: a worker releases every engine slot it holds before it claims the slots of its next job (shared with C03 R-3.6)", floor=4)
     from . import c03 as _c03d
     from .shared import RuleProxy as _RP5c
@@ -532,6 +536,7 @@ def run(ctx):
 
 
 VARIANTS = [
+    B("c05-rows-gathered-with-the-sorting-permutation", REPEX, "        out[sort_idx] = out.copy()  # COPY REQUIRED TO NOT BRAKE STATE!!!", "        out = out[sort_idx]  # undo the row sorting", "R-5.15", control=True, why="seeded C05_n"),
     B("c05-engines-released-per-requested-type-only", "infretis/classes/engines/factory.py", "    for eng_key in engine_occ.keys():\n        for i, occupied_by in enumerate(engine_occ[eng_key]):\n            if pin == occupied_by:", "    for eng_key in eng_names:\n        for i, occupied_by in enumerate(engine_occ[eng_key]):\n            if pin == occupied_by:", "R-5.14", control=True, why="seeded C05_m"),
     B("c05-minus-interface-by-truthiness", TIS_REL, "        if lambda_minus_one is not False:", "        if lambda_minus_one:", "R-5.13", control=True, why="seeded C05_l (lambda_minus_one = 0.0 is a legal interface)"),
     B("c05-budget-clamped-before-subtraction", REPEX, "            total_traj_prob -= ens\n            # force negative values to 0\n            total_traj_prob[np.where(total_traj_prob < 0)] = 0\n", "            # force negative values to 0\n            total_traj_prob[np.where(total_traj_prob < 0)] = 0\n            total_traj_prob -= ens\n", "R-5.12", control=True, why="seeded C05_k"),
